@@ -5,7 +5,7 @@ worktree of /repo's HEAD (demo passes without, fails with the change; test suite
 import json, os, shutil, subprocess, sys
 
 ID, n = sys.argv[1], sys.argv[2]
-ROUND = "2" if "--r2" in sys.argv else "3" if "--r3" in sys.argv else ""
+ROUND = next((a[3:] for a in sys.argv if a.startswith("--r") and a[3:].isdigit()), "")
 ROUND2 = bool(ROUND)
 src = ("/tmp/wt/R" + ROUND + "-%s-out/m%s" if ROUND else "/tmp/wt/%s-out/m%s") % (ID, n)
 wt = "/tmp/wt/confirm-%s-m%s" % (ID, n)
